@@ -1,6 +1,7 @@
 import Driver.Pixel
 import Driver.Geom
 import Driver.Render
+import Driver.Cascade
 open Driver
 
 def step (line : String) : String :=
@@ -14,6 +15,11 @@ def step (line : String) : String :=
   | "sizebook" :: args => handleRender "sizebook" args
   | "tile" :: args => handleRender "tile" args
   | "light" :: args => handleRender "light" args
+  | "casc" :: args => handleCascade "casc" args
+  | "expand" :: args => handleCascade "expand" args
+  | "attrclass" :: args => handleCascade "attrclass" args
+  | "elemclass" :: args => handleCascade "elemclass" args
+  | "findattr" :: args => handleCascade "findattr" args
   | "vb2ts" :: args => handleGeom "vb2ts" args
   | "nestedvb" :: args => handleGeom "nestedvb" args
   | "concat" :: args => handleGeom "concat" args
